@@ -654,6 +654,13 @@ func (w *world) Do(line string) string {
 	if f[0] == "ev" || f[0] == "obs" || f[0] == "cs" || f[0] == "cw" {
 		return "ok" // recorded trace lines: the real run already happened (see conc.go); the model is the acceptor
 	}
+	if f[0] == "cfgpush" { // NoModel: the real config package as injected database
+		n, err := strconv.Atoi(sel(f, 1))
+		if len(f) != 2 || err != nil || n < 1 || n > 50 {
+			return "bad-op"
+		}
+		return cfgPush(atomic.AddInt64(&dbCounter, 1), n)
+	}
 	if f[0] == "db" {
 		if len(f) != 3 || (f[2] != "0" && f[2] != "1") {
 			return "bad-op"
